@@ -40,7 +40,7 @@ from compiler.util import resources
 PROP = "C16"
 MODEL = "model_c16"
 CORPUS = os.path.join(common.VERIF, "corpus", PROP)
-CASE_TIMEOUT = 30
+CASE_TIMEOUT = 20
 # narrow predicate of the open finding "astronomically large constant field size": `[+N]`, N >= 10^6
 HUGE_SIZE = gen.HUGE
 
@@ -94,7 +94,18 @@ def crash_key(exc):
     repo = os.path.realpath(common.REPO) + os.sep
     tb = traceback.extract_tb(exc.__traceback__)
     if isinstance(exc, RecursionError):
-        return "crash:recursion:RecursionError"
+        # the innermost frame is arbitrary; name the emboss function that recurses most
+        count = {}
+        for fr in tb[-400:]:
+            fn = os.path.realpath(fr.filename)
+            if fn.startswith(repo):
+                k = (os.path.basename(fn), fr.name)
+                count[k] = count.get(k, 0) + 1
+        if count:
+            top = max(count.values())
+            f, n = sorted(k for k, v in count.items() if v == top)[0]
+            return "crash:%s:%s:RecursionError" % (f, n)
+        return "crash:?:?:RecursionError"
     for fr in reversed(tb):
         fn = os.path.realpath(fr.filename)
         if fn.startswith(repo):
@@ -208,6 +219,9 @@ def run_case(case, want_model_lines=True):
         if any(HUGE_SIZE.search(t) for t in files.values()):
             key = "timeout:constant-field-size>=10^6"
         res["bad"].append((key, "no result within %d s of CPU time" % case.get("timeout", CASE_TIMEOUT)))
+    except Exception as e:  # noqa: BLE001  (a defect of this harness, or a message so malformed the oracle fails)
+        res["outcome"] = "oracle-failure"
+        res["bad"].append(("oracle-failure:%s" % type(e).__name__, "the C16 oracle itself raised: " + " | ".join(tb_tail(e))))
     finally:
         signal.setitimer(signal.ITIMER_PROF, 0)
         signal.signal(signal.SIGPROF, old)
@@ -248,7 +262,7 @@ def _run_case(case, files, main, res, want_model_lines):
         plain, colour, e = render_real(errors, sources)
         if e is not None:
             res["bad"].append((crash_key(e), "error.format_errors raised: " + " | ".join(tb_tail(e))))
-        elif want_model_lines and all(g for g in errors):
+        elif want_model_lines and all(g for g in errors) and all(isinstance(m.source_file, str) for g in errors for m in g):
             named = {m.source_file for g in errors for m in g}
             used = {k: v for k, v in sources.items() if k in named}
             res["fmt"] = (enc_sources(used), enc_groups(errors), plain, colour)
@@ -275,7 +289,7 @@ def _run_case(case, files, main, res, want_model_lines):
         plain, colour, e = render_real(berrs, sources)
         if e is not None:
             res["bad"].append((crash_key(e), "error.format_errors (back end) raised: " + " | ".join(tb_tail(e))))
-        elif want_model_lines and all(g for g in berrs):
+        elif want_model_lines and all(g for g in berrs) and all(isinstance(m.source_file, str) for g in berrs for m in g):
             named = {m.source_file for g in berrs for m in g}
             used = {k: v for k, v in sources.items() if k in named}
             res["fmt"] = (enc_sources(used), enc_groups(berrs), plain, colour)
@@ -362,9 +376,25 @@ class Explorer:
         if res["fmt"] is not None and len(self.fmt_cases) < self.fmt_budget:
             self.fmt_cases.append((case, res["fmt"]))
 
-    def run(self, cases, procs=4):
-        for c, res in zip(cases, run_cases_isolated(cases, procs)):
-            self.record(c, res)
+    def run(self, cases, procs=4, batch=240):
+        """Batches, with a circuit breaker: when (nearly) every input exhausts its CPU
+        budget — e.g. an import queue that no longer terminates — the first such input is
+        already reported as a violation; running thousands more would take hours."""
+        timeouts = 0
+        starts = [0, 48] + list(range(48 + batch, len(cases), batch))
+        for i, j in zip(starts, starts[1:] + [len(cases)]):
+            part = cases[i:j]
+            if not part:
+                continue
+            for c, res in zip(part, run_cases_isolated(part, procs)):
+                self.record(c, res)
+                if res["outcome"] == "timeout" and not any(k.startswith("timeout:constant-field-size") for k, _ in res["bad"]):
+                    timeouts += 1
+            if timeouts >= 12:
+                self.chk.extra["exploration_aborted"] = ("%d inputs exhausted the %d s CPU budget within the first %d; "
+                                                         "exploration stopped (violation already reported)" % (
+                                                             timeouts, CASE_TIMEOUT, i + len(part)))
+                break
 
     def finish(self):
         x = self.chk.extra
@@ -411,8 +441,7 @@ def known_cases(chk):
                 and not k.get("cli_only"):
             files = k.get("files") or {"m.emb": k["input"]}
             c = {"kind": "known/" + k["key"], "main": k.get("main", "m.emb"), "files": files, "nesting": 0}
-            if k.get("timeout"):
-                c["timeout"] = k["timeout"]
+            c["timeout"] = k.get("timeout") or 15
             out.append((k, c))
     return out
 
@@ -564,6 +593,8 @@ def tie_parse_error(chk, r, n, real_parse_errors):
         items.append(("f.emb", lr1.ParseError(code, 0, parser_types.Token(sym, text, loc), 0, exp)))
     items += real_parse_errors
     for fname, pe in items:
+        if not (hasattr(pe.token, "text") and hasattr(pe.token, "source_location")):
+            continue    # not a Token (the pre-1f5badf end-of-input Symbol): the exploration reports that crash
         if not all(ord(c) < 128 for c in pe.token.text):
             continue
         try:
@@ -922,7 +953,7 @@ def exploration(chk, tier, with_model):
                 ex.record(case, {"kind": case["kind"], "outcome": res["outcome"], "bad": [(key, desc)],
                                  "kinds": [], "fmt": None})
     first = load_corpus() + testdata_cases() + gen.boundary_cases()
-    n = 1500 if tier == "quick" else 25000
+    n = 1500 if tier == "quick" else 15000
     cases = first + [gen.pick(r) for _ in range(n)]
     t0 = time.time()
     ex.run(cases, procs=4)
@@ -943,6 +974,15 @@ def search(chk):
 
 
 def run(tier):
+    try:
+        return _run(tier)
+    except (common.InfraError, subprocess.TimeoutExpired):
+        raise
+    except Exception as e:  # noqa: BLE001  — a defect of this harness is an infrastructure failure, never a verdict
+        raise common.InfraError("C16 harness failure: " + " | ".join(tb_tail(e, 6)))
+
+
+def _run(tier):
     chk = common.Check(PROP, tier, exes=[MODEL])
     chk.cov["rule"] = ("one evaluation = one input through an entry point, or one model/real comparison; "
                        "non-trivial & distinct = distinct (outcome class, normalised first error message) of the "
